@@ -1,5 +1,48 @@
-//! stub: binary `svclife` (to be written)
+//! binary `svclife` (C06): service creation / opening / lifetime.
+//!
+//!   svclife svclife gen|replay [--seed N --cases N --len N --exhaustive L] [matrix <ps|ev|rr|bb>]   (line protocol of seqdiff)
+//!   svclife syscalls create|open <pattern>      one call on a fresh name, markers on stderr for strace (Part B tie i)
+//!   svclife stress <rounds> <creators> <openers> <seed> [threads]   (Part B tie ii)
+extern crate iceoryx2_bb_loggers;
+#[path = "../common.rs"]
+mod common;
+mod conc;
+mod generate;
+mod world;
+use common::*;
+
 fn main() {
-    eprintln!("svclife: not implemented");
-    std::process::exit(2);
+    let argv: Vec<String> = std::env::args().collect();
+    if argv.len() < 3 {
+        eprintln!("usage: svclife svclife gen|replay … | svclife syscalls create|open <pat> | svclife stress <rounds> <creators> <openers> <seed>");
+        std::process::exit(2);
+    }
+    struct Quiet;
+    impl iceoryx2_log::Log for Quiet {
+        fn log(&self, _l: iceoryx2_log::LogLevel, _o: core::fmt::Arguments, _m: core::fmt::Arguments) {}
+    }
+    static QUIET: Quiet = Quiet;
+    if std::env::var("VERIF_LOG").is_err() {
+        iceoryx2_log::set_logger(&QUIET);
+        iceoryx2_log::set_log_level(iceoryx2_log::LogLevel::Fatal);
+    } else {
+        iceoryx2_log::set_log_level(iceoryx2_log::LogLevel::Trace);
+    }
+    match argv[1].as_str() {
+        "svclife" => {
+            std::panic::set_hook(Box::new(|_| {}));
+            let args = parse_args(&argv[2..]);
+            let cases = if args.mode == "replay" { read_cases_from_stdin() } else { generate::generate(&args) };
+            run_cases(&|| world::SvcComp::new(), &cases);
+            world::cleanup_prefix(&format!("vs{}_", std::process::id()));
+            let _ = std::fs::remove_dir_all(world::root_dir());
+        }
+        "syscalls" => conc::syscalls(&argv[2..]),
+        "stress" => conc::stress(&argv[2..]),
+        "stress-child" => conc::stress_child(&argv[2..]),
+        x => {
+            eprintln!("unknown subcommand {x}");
+            std::process::exit(2);
+        }
+    }
 }
